@@ -101,6 +101,26 @@ impl Monitor for C18 {
                 ctx.check(&Case::new(Ev::Num, "from-f64/random", "", Val::NF(f64::from_bits(bits))), &|c, st| self.judge(c, st));
             }
         }
+        // doubles whose two 32-bit words are related: code that takes a double apart the fdlibm way (high
+        // word, low word, masks that depend on the exponent) goes wrong for particular relations between the
+        // words, one low word in 2^32 per high word (seeded change C18-r10: `^` for `|` when combining the
+        // fraction bits of the high word with the low word) - random bit patterns never meet them
+        let nw = ctx.tier.pick(150_000u64, 3_000_000);
+        for i in 0..nw {
+            if !ctx.mine() {
+                continue;
+            }
+            let mut rng = ctx.rng("words", i);
+            let e = rng.below(80) as i64 - 6; // unbiased exponent -6..73
+            let hi: u32 = (((rng.next() as u32) & 0x800f_ffff) | (((1023 + e) as u32) << 20)) & if rng.chance(1, 3) { !((1u32 << rng.below(20)) - 1) } else { u32::MAX };
+            let ec = e.clamp(0, 20) as u32;
+            let k = 1 + rng.below(31) as u32;
+            let los: [u32; 16] = [hi, !hi, hi & 0x000f_ffff, hi & (0x000f_ffff >> ec), (hi & 0x000f_ffff) >> ec, (hi & 0x000f_ffff) << (12 + ec).min(31), hi >> k, hi << k, hi.rotate_left(k), hi.swap_bytes(), hi.reverse_bits(), hi ^ 1, hi.wrapping_add(1), hi.wrapping_sub(1), (hi & (0x000f_ffff >> ec)) ^ 1, !(hi & (0x000f_ffff >> ec))];
+            for lo in los {
+                let bits = ((hi as u64) << 32) | lo as u64;
+                ctx.check(&Case::new(Ev::Num, "from-f64/words", "", Val::NF(f64::from_bits(bits))), &|c, st| self.judge(c, st));
+            }
+        }
         for x in crate::gen::i64_pool() {
             if ctx.mine() {
                 ctx.check(&Case::new(Ev::Num, "from-i64", "", Val::NI(x)), &|c, st| self.judge(c, st));
